@@ -4,4 +4,4 @@ Require Import ExtrOcamlBasic.
 Extraction Language OCaml.
 Extraction "../ocaml/c12/model.ml" util_add util_mul util_divmod requests_unused_z
   step init run drain_view sizes req_status req_released nreqs errcode
-  proposeB_outcome read_outcome lq_outcome cc_outcome ss_outcome.
+  clock_of shards_of add64 proposeB_outcome read_outcome lq_outcome cc_outcome ss_outcome.
